@@ -2323,7 +2323,9 @@ def check_C11(tier, seed):
 
 
 # ---------------------------------------------------------------------------
-def mt_script(rng, sid, threads, iters, updpol=3):
+def mt_script(rng, sid, threads, iters, updpol=None):
+    if updpol is None:
+        updpol = rng.choice([3, 4, 5])     # fast hash + vector / map / checked hash + indirect
     n = rng.randrange(3, 8)
     classes, edges, _, _, _, kind = S.random_registry(rng, n, 0, 1, 0)
     anc = S.anc_closure(edges, classes)
@@ -2336,7 +2338,7 @@ def mt_script(rng, sid, threads, iters, updpol=3):
         for d in range(rng.randrange(0, 5)):
             defs.append((m, d, [rng.choice(cov[v]) for v in vp]))
     recs = S.presentation(rng.choice(["direct", "complete"]), classes, edges, rng)
-    for p in range(4):
+    for p in range(6):
         for c, bases in recs:
             lines.append("c %d %d %d 0 %d %s" % (p, c, c, len(bases), " ".join(map(str, bases))))
         for m, sh, vp in methods:
@@ -2381,6 +2383,11 @@ def check_C16(tier, seed):
     exe = C.build_simple("mt", "mt.cpp", opt="-O1", san="thread", extra_flags=["-g"])
     F.model_check(out, "Concurrency.tla", "Concurrency_other.cfg")
     F.model_check(out, "Concurrency.tla", "Concurrency_same.cfg", expect_violation=True)
+    # second mechanism model: seven caller operations, three updater operations, the keying of every kind of storage a parameter
+    F.model_check(out, "ConcurrencyPaths.tla", "ConcurrencyPaths_other.cfg")
+    negs = ["same", "cache"] + ["shared_" + k for k in ("hashpar", "ctrl", "vec", "svp", "slots", "vtbl", "disp", "handler")]
+    for ng in (negs if tier != "quick" else ["same", "cache", "shared_handler", "shared_vec", "shared_hashpar"]):
+        F.model_check(out, "ConcurrencyPaths.tla", "ConcurrencyPaths_%s.cfg" % ng, expect_violation=True)
     nscripts = 10 if tier == "quick" else 120
     threads = 8 if tier == "quick" else 14
     iters = 20000 if tier == "quick" else 60000
@@ -2418,6 +2425,27 @@ def check_C16(tier, seed):
     _, nrej = C.validate_trace("TraceYomm2.tla", TCFG, ntp, parts=1)
     out.selftests.append({"label": "update run concurrently on a policy the callers use (outside the property): race reported and trace rejected",
                           "applied": True, "clean_accepted": True, "corrupt_rejected": bool(nrej) and races > 0, "tsan_reports": races})
+    # negative control of the footprint binding: the first experiment's trace with one range of policy 3 moved onto one of policy 0
+    fl = list(results[0][0])
+    fi = next((i for i, l in enumerate(fl) if l.startswith('{"e":"footprint"')), None)
+    if fi is None:
+        if not out.rejections:
+            raise C.ToolFailure("vacuous: the mt harness logged no footprint event")
+    else:
+        ev = json.loads(fl[fi])
+        a = next(c for c in ev["cells"] if c["p"] == 0)
+        b = next(c for c in ev["cells"] if c["p"] == 3)
+        b["lo"], b["hi"] = a["lo"], a["hi"]
+        fl[fi] = json.dumps(ev, separators=(",", ":")) + "\n"
+        ftp = os.path.join(C.scratch(), "c16fp.ndjson")
+        with open(ftp, "w") as f:
+            f.writelines(fl)
+        _, frej = C.validate_trace("TraceYomm2.tla", TCFG, ftp, parts=1)
+        ok = bool(frej)
+        out.selftests.append({"label": "footprint event with a storage range of the updated policy placed on a range of a callers' policy: rejected",
+                              "applied": True, "clean_accepted": not out.rejections, "corrupt_rejected": ok})
+        if not ok:
+            raise C.ToolFailure("negative control: overlapping footprint not rejected")
     st = [json.loads(l) for ls, _ in results for l in ls if l.startswith('{"e":"statics"')]
     ncalls = sum(x["calls"] for x in st)
     nupd = sum(x["updates"] for x in st)
